@@ -22,7 +22,9 @@ use crate::report::{Acc, Check, Tier};
 use crate::util;
 use crate::world::{self, Verdict};
 
-pub const DEVIATIONS: [&str; 19] = [
+pub const DEVIATIONS: [&str; 21] = [
+    "inner-threshold-2-links-disagree",
+    "inner-require-fails",
     "co:second-functionary-subdir-missing",
     "co:second-functionary-subdir-disagrees",
     "inner-links-in-directory-of-name-before-last-dot",
@@ -85,6 +87,22 @@ fn inner_link(i: usize) -> LinkMetadata {
     mk_link(&format!("in{i}"), &[("src", i as u8)], &[("out", 10 + i as u8)])
 }
 
+/// Inner link number `i` of the tree: in the shape `s-empty-ends` the first inner step reports no
+/// materials and the last one no products (the summary must then carry empty maps, not those of
+/// the nearest step that has some).
+fn inner_link_t(tree: &Tree, i: usize) -> LinkMetadata {
+    let mut l = inner_link(i);
+    if tree.shape == "s-empty-ends" {
+        if i == 1 {
+            l.materials.clear();
+        }
+        if i == tree.n_inner {
+            l.products.clear();
+        }
+    }
+    l
+}
+
 fn has(devs: &BTreeSet<&str>, d: &str) -> bool {
     devs.contains(d)
 }
@@ -105,8 +123,11 @@ fn build(dir: &Path, tree: &Tree, devs: &BTreeSet<&str>) -> in_toto::models::Met
     let mut inner_steps: Vec<Step> = vec![];
     for i in 1..=n {
         let mut st = world::step(&format!("in{i}"), 1, &[k.b]);
-        if i == 1 && has(devs, "inner-threshold-2-one-link") {
+        if i == 1 && (has(devs, "inner-threshold-2-one-link") || has(devs, "inner-threshold-2-links-disagree")) {
             st = world::step("in1", 2, &[k.b, k.h]);
+        }
+        if i == n && has(devs, "inner-require-fails") {
+            st = st.add_expected_material(ArtifactRule::Require("no-such-artifact".into()));
         }
         if i == n && has(devs, "inner-rule-fails") {
             st = st.add_expected_product(ArtifactRule::Disallow("*".into()));
@@ -154,7 +175,7 @@ fn build(dir: &Path, tree: &Tree, devs: &BTreeSet<&str>) -> in_toto::models::Met
             std::fs::create_dir_all(&deep_dir).unwrap();
             if !has(devs, "level3-link-missing") {
                 // the deep step reports what in1 would have reported
-                let mut l = inner_link(1);
+                let mut l = inner_link_t(tree, 1);
                 l.name = "deep".into();
                 world::write(&deep_dir, &world::link_file("deep", k.h), &world::block_text(&world::sign_link(l, &[k.h])));
             }
@@ -167,7 +188,13 @@ fn build(dir: &Path, tree: &Tree, devs: &BTreeSet<&str>) -> in_toto::models::Met
         } else {
             k.b
         };
-        let mb = world::sign_link(inner_link(i), &[link_signer]);
+        let mb = world::sign_link(inner_link_t(tree, i), &[link_signer]);
+        if i == 1 && has(devs, "inner-threshold-2-links-disagree") {
+            // the second functionary of in1 signs a link with another product digest
+            let mut other = inner_link_t(tree, 1);
+            other.products = world::arts(&[("out", 77)]);
+            world::write(&sub, &world::link_file(&name, k.h), &world::block_text(&world::sign_link(other, &[k.h])));
+        }
         let text = if i == n && has(devs, "inner-link-tampered") {
             let mut v = world::block_value(&mb);
             v["signed"]["products"]["out"]["sha256"] = json!(util::hex(&world::h(200)));
@@ -184,7 +211,7 @@ fn build(dir: &Path, tree: &Tree, devs: &BTreeSet<&str>) -> in_toto::models::Met
             let sub_g = dir.join(format!("{}.{}", tree.step, k.g.prefix()));
             std::fs::create_dir_all(&sub_g).unwrap();
             for i in 1..=n {
-                let mut l = inner_link(i);
+                let mut l = inner_link_t(tree, i);
                 if i == n && has(devs, "co:second-functionary-subdir-disagrees") {
                     l.products = world::arts(&[("out", 99)]);
                 }
@@ -219,8 +246,8 @@ fn build(dir: &Path, tree: &Tree, devs: &BTreeSet<&str>) -> in_toto::models::Met
 /// Reference summary of the whole (valid) tree.
 fn expected_summary(tree: &Tree) -> Value {
     let n = tree.n_inner;
-    let first_inner = inner_link(1);
-    let last_inner = inner_link(n);
+    let first_inner = inner_link_t(tree, 1);
+    let last_inner = inner_link_t(tree, n);
     let (materials, last) = match tree.shape {
         "s+t" => (first_inner.materials.clone(), mk_link("t", &[("out", 10 + n as u8)], &[("final", 50)])),
         "t0+s" => (mk_link("t0", &[("first", 40)], &[("mid", 41)]).materials, last_inner),
@@ -244,15 +271,17 @@ fn state_json(tree: &Tree, devs: &BTreeSet<&str>) -> Value {
 fn applicable(tree: &Tree, d: &str) -> bool {
     if tree.co && !d.starts_with("co:") {
         // with two functionaries the single-functionary deviations are explored on the other trees
-        return matches!(d, "inner-expired" | "inner-rule-fails" | "inner-layout-tampered");
+        return matches!(d, "inner-expired" | "inner-layout-tampered" | "inner-threshold-2-links-disagree" | "inner-require-fails") || (d == "inner-rule-fails" && tree.shape != "s-empty-ends");
     }
     match d {
         "co:second-functionary-subdir-missing" | "co:second-functionary-subdir-disagrees" => tree.co,
         "inner-links-in-directory-of-name-before-last-dot" => tree.step.contains('.'),
         "level3-link-missing" | "level3-layout-signed-by-other-key" => tree.levels == 3,
         // with three levels in1's evidence is a sub-layout, link-level deviations on in1 do not apply
-        "inner-link-by-unauthorized-key" | "inner-link-by-key-outside-inner-table" | "inner-threshold-2-one-link" => tree.levels == 2,
+        "inner-link-by-unauthorized-key" | "inner-link-by-key-outside-inner-table" | "inner-threshold-2-one-link" | "inner-threshold-2-links-disagree" => tree.levels == 2,
         "inner-link-missing:last" => tree.n_inner > 1,
+        // the failing rule is DISALLOW * on the last inner step's products, which that shape leaves empty
+        "inner-rule-fails" => tree.shape != "s-empty-ends",
         // the last inner step is the third-level delegation when there is only one inner step
         "inner-link-tampered" => !(tree.levels == 3 && tree.n_inner == 1),
         _ => true,
@@ -264,7 +293,7 @@ fn conflict(a: &str, b: &str) -> bool {
         match d {
             "inner-signed-by-G-filed-under-F" | "inner-signed-by-unauthorized-G-under-G" => 1,
             "subdir-named-after-other-key" | "subdir-named-after-step-only" | "inner-links-in-parent-dir" | "inner-links-in-directory-of-name-before-last-dot" => 2,
-            "inner-link-by-unauthorized-key" | "inner-link-by-key-outside-inner-table" | "inner-link-missing:first" | "inner-threshold-2-one-link" => 3,
+            "inner-link-by-unauthorized-key" | "inner-link-by-key-outside-inner-table" | "inner-link-missing:first" | "inner-threshold-2-one-link" | "inner-threshold-2-links-disagree" => 3,
             _ => 0,
         }
     };
@@ -347,10 +376,13 @@ pub fn run(tier: Tier) -> i32 {
     let max_dev = if tier.thorough() { 2 } else { 1 };
     let mut trees = vec![];
     for step in ["s", "rel.signed", "s p.é"] {
-        for shape in ["s", "s+t", "t0+s"] {
+        for shape in ["s", "s+t", "t0+s", "s-empty-ends"] {
             for n_inner in 1..=3 {
                 for levels in [2, 3] {
                     if !tier.thorough() && (levels == 3 && n_inner == 3 || step != "s" && n_inner == 3) {
+                        continue;
+                    }
+                    if shape == "s-empty-ends" && step != "s" {
                         continue;
                     }
                     trees.push(Tree { co: false, step, shape, n_inner, levels });
@@ -418,7 +450,7 @@ pub fn run(tier: Tier) -> i32 {
     acc.transitions += transitions;
     plain_summaries(&mut acc);
     c.acc = acc;
-    c.rule = "state = (outer shape in {delegated step alone, delegated step followed by a step that MATCHes its products, a step followed by the delegated step}, inner sequence of 1..3 steps, 2 or 3 delegation levels, set of active deviations); transition = toggle one deviation starting from the fully valid tree; each state is one in_toto_verify run on a freshly built directory tree; non-trivial = at least one deviation".into();
+    c.rule = "state = (outer shape in {delegated step alone, delegated step followed by a step that MATCHes its products, a step followed by the delegated step, delegated step alone whose first inner step has no materials and whose last has no products}, inner sequence of 1..3 steps, 2 or 3 delegation levels, set of active deviations); transition = toggle one deviation starting from the fully valid tree; each state is one in_toto_verify run on a freshly built directory tree; non-trivial = at least one deviation".into();
     c.bound_completed = format!("{} trees x all sets of <= {max_dev} compatible deviations out of {}; plain layouts of 1..3 steps for the summary clause", trees.len(), DEVIATIONS.len());
     c.assume("each deviation alone invalidates the sub-layout evidence (they were chosen that way); ring trusted");
     c.finish()
@@ -430,7 +462,7 @@ pub fn replay(case: &Value) -> Value {
         plain_summaries(&mut acc);
         return json!({"violation": acc.violations.keys().next()});
     }
-    let shape = ["s", "s+t", "t0+s"].into_iter().find(|s| Some(*s) == case["shape"].as_str()).unwrap_or("s");
+    let shape = ["s", "s+t", "t0+s", "s-empty-ends"].into_iter().find(|s| Some(*s) == case["shape"].as_str()).unwrap_or("s");
     let step = ["s", "rel.signed", "s p.é"].into_iter().find(|s| Some(*s) == case["step"].as_str()).unwrap_or("s");
     let tree = Tree { co: case["co_delegated"].as_bool().unwrap_or(false), step, shape, n_inner: case["inner_steps"].as_u64().unwrap_or(1) as usize, levels: case["levels"].as_u64().unwrap_or(2) as usize };
     let devs: BTreeSet<&'static str> = case["deviations"].as_array().map(|a| a.iter().filter_map(|x| DEVIATIONS.iter().copied().find(|d| Some(*d) == x.as_str())).collect()).unwrap_or_default();
